@@ -49,7 +49,7 @@ pub fn number_regex_parser(config: &SmartCalcConfig, tokinizer: &mut Tokinizer, 
                         match capture.name("NOTATION") {
                             Some(notation) => {
                                 notation_match = Some(notation);
-                                num * match notation.as_str() {
+                                let multiplier = match notation.as_str() {
                                     "k" | "K" => 1_000.0,
                                     "M" => 1_000_000.0,
                                     "G" => 1_000_000_000.0,
@@ -57,7 +57,15 @@ pub fn number_regex_parser(config: &SmartCalcConfig, tokinizer: &mut Tokinizer, 
                                     "P" => 1_000_000_000_000_000.0,
                                     "Z" => 1_000_000_000_000_000_000.0,
                                     "Y" => 1_000_000_000_000_000_000_000.0,
-                                    _ => 1.0
+                                    _ => 0.0
+                                };
+
+                                if multiplier > 0.0 {
+                                    /* The notation is part of the number, do not let it be read as a unit name (1M is not 1 meter) */
+                                    parse_end = notation.end();
+                                    num * multiplier
+                                } else {
+                                    num
                                 }
                             },
                             _ => num
